@@ -27,7 +27,11 @@ fn decode(surface: bool, yz: u32, xz: u32, odd: bool, rlat: f64, rlon: f64) -> R
         }
         guarded(|| surface_position_with_reference(&m, rlat, rlon))
     } else {
-        let mut m = airborne_msg(yz, xz, odd);
+        let mut m = match crate::props::c04::airborne_msg_checked(yz, xz, odd) {
+            Ok(m) => m,
+            // a well-formed report the parser refuses gives no position: judged like any other "no position"
+            Err(_) => return Ok(None),
+        };
         if let Some((la, lo)) = stale {
             m.latitude = Some(la);
             m.longitude = Some(lo);
